@@ -19,12 +19,17 @@ type Gen struct {
 	implsOf map[int][]*Struct // registered structs implementing interface i
 	md      map[reflect.Type]int
 	Big     bool // allow the rare very long strings
+	lits    []int // integer constants of the codec's own sources (buffer sizes, thresholds): lengths worth trying
 }
+
+// litDirs: the packages whose constants the generator uses as lengths of its own
+var litDirs = []string{"internal/encoding/tl", "internal/mtproto/objects", "internal/mtproto/messages", "internal/utils"}
 
 const inf = 1 << 20
 
 func NewGen(u *Universe, r *vc.Rng) *Gen {
 	g := &Gen{U: u, R: r, implsOf: map[int][]*Struct{}, md: map[reflect.Type]int{}}
+	g.lits = vc.SourceLiterals(9, 1<<17, litDirs...)
 	for _, s := range u.Structs {
 		if !s.Registered {
 			continue
@@ -99,6 +104,15 @@ func (g *Gen) strLen() int {
 			return 301 + g.R.Intn([]int{700, 4000, 66000, 140000}[g.R.Intn(4)])
 		}
 		return g.R.Intn(300)
+	case 4:
+		// one below, at, one above a constant of the implementation (small ones always, large ones like the long strings)
+		if len(g.lits) > 0 {
+			l := g.lits[g.R.Intn(len(g.lits))] - 1 + g.R.Intn(3)
+			if l <= 300 || (g.Big && g.R.Intn(12) == 0) {
+				return l
+			}
+		}
+		return g.R.Intn(24)
 	default:
 		return g.R.Intn(24)
 	}
